@@ -678,7 +678,35 @@ def _arms(F, A, rep, tag, gen, only_count=False):
             elif bi not in excl[want]:
                 rep.bad("R-ARMS", ik2, "the access typed at %s is not confined to the %s arm" % (ty, want), F.loc(b, t["span"]), tag)
             else:
-                rep.ok("R-ARMS", ik2, cfg=tag)
+                # (a) the pointer handed over is the payload address: the stored word with exactly the tag removed
+                e = symx.expr(F, FB, t["args"][0])
+                bits = F.pointer_bits
+                wrong = None
+                for P in (0x1000, 0x7f00_0040):
+                    w = P | (0 if want == "First" else 1)
+                    try:
+                        v = symx.eval_int(e, union_word_leaf(w, {gen[0]: 8, gen[1]: 8}), bits)
+                    except Exception:
+                        v = None
+                    if v is not None and v != P:
+                        wrong = (w, v, P)
+                # (b) the variant was tested on the word the access is built from: not after that word was replaced in the handle
+                stale = None
+                calls_e = []
+                _collect_calls(e, calls_e)
+                if any(c[2] in ("replace", "swap", "take") for c in calls_e):
+                    store_bbs = [bj for bj, t2 in FB.calls() if (atomics.callee_of(t2) or "") in ("core::mem::replace", "core::mem::swap", "core::ptr::replace") and t2["args"] and _mentions_union_word(symx.expr(F, FB, t2["args"][0]))]
+                    for bj, t2 in FB.calls():
+                        cb2 = F.body(atomics.callee_of(t2) or "")
+                        if cb2 is not None and cb2.get("name") in ("is_first", "is_second", "borrow") and F.handle_name((cb2.get("impl") or {}).get("self_ty", -1)) == "ArcUnion":
+                            if any(bj in FB.reach(sb, normal_only=True) and bj != sb for sb in store_bbs):
+                                stale = t2["span"]["line"]
+                if wrong:
+                    rep.bad("R-ARMS", ik2, "in the %s arm the pointer handed to %s is not the payload address: for the stored word %#x it is %#x instead of %#x (the tag bit must be stripped, and only it) - the count is then looked for at a misaligned word next to the payload" % (want, (F.body(atomics.callee_of(t)) or {}).get("name"), wrong[0], wrong[1], wrong[2]), F.loc(b, t["span"]), tag)
+                elif stale:
+                    rep.bad("R-ARMS", ik2, "the handle typed at %s is built from the word the union held *before* it was replaced, but the variant is tested (line %s) after the replacement: the test describes the new value - when the two variants differ the old block is released at the other type" % (ty, stale), F.loc(b, t["span"]), tag)
+                else:
+                    rep.ok("R-ARMS", ik2, cfg=tag)
     if only_count:
         return
     # both Drop arms release exactly one owner of their own type (R-BAL on Drop is C01; here: each arm drops an Arc)
@@ -801,6 +829,7 @@ def main(argv):
             " Round thirteen/fourteen: R-DESTROY as a premise; R-TAG refuses in-bounds pointer arithmetic on the union's word (undefined behaviour for zero-sized payloads); the variant test may be the written-out tag test or a private enum decoded from it."
             ' Round fifteen: R-OFFSET and R-ZST-DIV as premises.'
             " Round seventeen: the ArcUnion instances of C14's R-EQ-NE / R-NE-NEG (unions holding different variants never compare equal, under `!=` too)."
+            ' Round eighteen: R-ARMS typed-access also evaluates the pointer handed over (the stored word with exactly the tag removed) and refuses a variant test made after the word was replaced.'
         ),
         rule_text="instances = tag construction/test/strip sites, variant arms, the parity lemma",
         trusted_base=["rustc MIR def-use", "repr(C) layout rules", "expression evaluator analysis/symx.py"],
